@@ -93,7 +93,9 @@ func (m *MessageBuffer) Send(msg []byte) error {
 		return ErrClosed
 	}
 
-	l := len(msg)
+	// account for the per-message encoding overhead so that the encoded batch
+	// never exceeds maxSize
+	l := batchedSize(msg)
 	if l > m.maxSize {
 		return ErrMessageTooLarge
 	}
